@@ -698,11 +698,10 @@ def canonicalise(m, st, heads=None):
     map_state(st, fatlen)
     # 0. abstract linear parts over consumed cells that no single-byte value refers to any more
     abstract_dead_cells(m, st)
-    # the header counter is generalised at the outermost loop head of its function only: the
+    # the header counter is generalised at the head of the main (largest) loop of its function only: the
     # generalisation substitutes by value, which must not meet the small constants of inner loops
     fr_ = st.frames[-1]
-    hs_ = (heads or {}).get(fr_.inst)
-    if heads is None or (hs_ and fr_.stmt == 0 and fr_.block == min(hs_)):
+    if heads is None or (fr_.stmt == 0 and heads.get(fr_.inst) == fr_.block):
         symbolise_counter(m, st)
     # 1. fold the consumed-but-uncommitted window: cells no longer referenced by any live value
     #    are summarised (content mask, length bound, first-byte mask)
@@ -999,6 +998,47 @@ def loop_heads(prog):
     return heads
 
 
+def main_loop_heads(prog, heads):
+    """Per function: the head of its largest loop (most blocks that lie on a cycle through the
+    head) -- the loop that walks over the input, as opposed to small skipping / trimming loops."""
+    out = {}
+    for inst in prog.insts:
+        hs = heads.get(inst["id"])
+        if not hs:
+            continue
+        blocks = inst["body"]["blocks"]
+        n = len(blocks)
+        preds = [[] for _ in range(n)]
+        for i, bl in enumerate(blocks):
+            for s_ in succs(bl):
+                preds[s_].append(i)
+        best, best_size = None, -1
+        for h in sorted(hs):
+            # forward reachable from h
+            fwd = {h}
+            stack = [h]
+            while stack:
+                x = stack.pop()
+                for s_ in succs(blocks[x]):
+                    if s_ not in fwd:
+                        fwd.add(s_)
+                        stack.append(s_)
+            # backward reachable from h
+            bwd = {h}
+            stack = [h]
+            while stack:
+                x = stack.pop()
+                for p_ in preds[x]:
+                    if p_ not in bwd:
+                        bwd.add(p_)
+                        stack.append(p_)
+            size = len(fwd & bwd)
+            if size > best_size:
+                best, best_size = h, size
+        out[inst["id"]] = best
+    return out
+
+
 def succs(block):
     t = block["term"]
     k = t["k"]
@@ -1027,6 +1067,7 @@ class Explorer:
         self.m = Machine(prog, hooks=hooks or TapeHooks())
         P.install(self.m)
         self.heads = loop_heads(prog)
+        self.main_heads = main_loop_heads(prog, self.heads)
         self.live = compute_liveness(prog)
         self.visited = {}  # key -> list of fact dicts
         self.max_states = max_states
@@ -1058,6 +1099,8 @@ class Explorer:
                             break
                     m.step_block(st)
                     self.ntrans += 1
+                    if self.ntrans % 2000 == 0 and time.time() - t0 > self.max_seconds:
+                        raise Budget("exploration budget exceeded (%d states, %d transitions)" % (self.nstates, self.ntrans))
                     if st.done is not None:
                         self.finish(st)
                         break
@@ -1087,7 +1130,7 @@ class Explorer:
 
     def covered(self, st):
         drop_dead_locals(self.live, st, self.p)
-        canonicalise(self.m, st, self.heads)
+        canonicalise(self.m, st, self.main_heads)
         if st.mon is not None:
             st.mon.at_loop_head(self.m, st)
         k = state_key(st)
